@@ -115,6 +115,8 @@ def e2e_item(c):
 # ---------------------------------------------------------------- the check
 
 def run(ctx):
+    if ctx.replay:
+        return T.replay(ctx)
     import time as _t
     t0 = _t.time()
     phases = {}
